@@ -1,5 +1,19 @@
 package rlwe
 
+import (
+	"github.com/tuneinsight/lattigo/v6/ring"
+	"github.com/tuneinsight/lattigo/v6/ring/ringqp"
+	"github.com/tuneinsight/lattigo/v6/utils/sampling"
+)
+
+func VerifSetup_PRNGC03() *sampling.KeyedPRNG {
+	p, err := sampling.NewPRNG()
+	if err != nil {
+		panic(err)
+	}
+	return p
+}
+
 // C03: decryption inverts encryption (algebraic slot model).  Real key generator, encryptor (secret-key and public-key
 // paths, with and without the auxiliary modulus P, NTT and coefficient-domain parameters), decryptor.  All plaintext,
 // key, mask and error coefficients are atoms.  Dec_s(Enc(pt)) - pt must consist of error/rounding terms only, must
@@ -23,6 +37,14 @@ func vEncDec(c *vCtx, enc *Encryptor, level int, tag string) {
 	vAssert(vHasNoise(rQ, d), tag+"-fresh-ciphertext-carries-error-in-every-coefficient")
 	vAssert(vMetaEq(out.MetaData, pt.MetaData), tag+"-metadata-copied")
 	vAssert(ct.Level() == level && ct.Degree() == 1, tag+"-level-and-degree")
+	// the two components carry independent error samples (no sample is used twice)
+	if vIsAlgebraic() {
+		shared := false
+		for k, s := range rQ.SubRings[:level+1] {
+			shared = shared || vSharesAtomOfClass(ct.Value[0].Coeffs[k], ct.Value[1].Coeffs[k], s.Modulus, vError)
+		}
+		vAssert(!shared, tag+"-components-carry-independent-error-samples")
+	}
 	// wrong key: the uniform part must survive
 	out2 := NewPlaintext(params, level)
 	c.Dec2.Decrypt(ct, out2)
@@ -33,6 +55,87 @@ func vEncDec(c *vCtx, enc *Encryptor, level int, tag string) {
 		}
 		vAssert(ok, tag+"-decryption-under-independent-key-keeps-the-uniform-mask")
 	}
+}
+
+// degree-0 target (compressed ciphertext: only c0 is kept) under the secret key: c0 = -a·s + e must carry an error term
+// in every coefficient and the uniform mask, in the NTT and in the coefficient domain
+func VerifSetup_KeyedPRNGC03(key string) *sampling.KeyedPRNG {
+	p, err := sampling.NewKeyedPRNG([]byte(key))
+	if err != nil {
+		panic(err)
+	}
+	return p
+}
+
+func vEncZeroDegree0(c *vCtx, level int, tag string) {
+	params := c.Params
+	rQ := params.RingQ().AtLevel(level)
+	// the mask comes from a keyed generator, so that it can be regenerated and removed: what remains is the error
+	p1, p2 := VerifSetup_KeyedPRNGC03("deg0"+tag), VerifSetup_KeyedPRNGC03("deg0"+tag)
+	vPRNGKey(p1, "deg0"+tag)
+	vPRNGKey(p2, "deg0"+tag)
+	enc := c.EncSk.WithPRNG(p1)
+	ct := NewCiphertext(params, 0, level)
+	vAssert(enc.EncryptZero(ct) == nil, tag+"-EncryptZero-degree0-no-error")
+	a := rQ.NewPoly()
+	ringqp.NewUniformSampler(p2, *params.RingQP()).AtLevel(level, -1).Read(ringqp.Poly{Q: a})
+	e := *ct.Value[0].CopyNew()
+	if !ct.IsNTT {
+		rQ.NTT(e, e)
+		rQ.NTT(a, a) // the sampled mask is a coefficient-domain polynomial in this case
+	}
+	rQ.MulCoeffsMontgomeryThenAdd(a, c.Sk.Value.Q, e) // c0 + a·s
+	if vIsAlgebraic() {
+		ok, clean := true, true
+		for k, s := range rQ.SubRings[:level+1] {
+			ok = ok && vEverySlotHasClass(e.Coeffs[k], s.Modulus, vError)
+			clean = clean && vNoAtomOfClass(e.Coeffs[k], s.Modulus, vUniform) && vNoAtomOfClass(e.Coeffs[k], s.Modulus, vSecret)
+		}
+		vAssert(ok, tag+"-degree0-encryption-of-zero-carries-error-in-every-coefficient")
+		vAssert(clean, tag+"-degree0-encryption-of-zero-is-mask-times-secret-plus-error")
+		return
+	}
+	rQ.INTT(e, e)
+	nonzero, small := false, true
+	for k, s := range rQ.SubRings[:level+1] {
+		for _, v := range e.Coeffs[k] {
+			if v != 0 {
+				nonzero = true
+			}
+			if v > 64 && v < s.Modulus-64 {
+				small = false
+			}
+		}
+	}
+	vAssert(nonzero, tag+"-degree0-encryption-of-zero-carries-error-in-every-coefficient")
+	vAssert(small, tag+"-degree0-encryption-of-zero-is-mask-times-secret-plus-error")
+}
+
+// the encryptor samples from the distributions the parameters declare (also when they are not the defaults)
+func VerifSetup_CustomXeParams() Parameters {
+	p, err := NewParametersFromLiteral(ParametersLiteral{LogN: 4, Q: []uint64{97, 193}, P: []uint64{257}, NTTFlag: true,
+		Xe: ring.DiscreteGaussian{Sigma: 12.5, Bound: 75}, Xs: ring.Ternary{H: 5}})
+	if err != nil {
+		panic(err)
+	}
+	return p
+}
+
+func VerifH_C03_DeclaredDistributions() {
+	params := VerifSetup_CustomXeParams()
+	sk := NewSecretKey(params)
+	prng := VerifSetup_PRNGC03()
+	refE, err := ring.NewSampler(prng, params.RingQ(), params.Xe(), false)
+	vAssert(err == nil, "reference-error-sampler")
+	refS, err := ring.NewSampler(prng, params.RingQ(), params.Xs(), false)
+	vAssert(err == nil, "reference-secret-sampler")
+	for ei, enc := range []*Encryptor{NewEncryptor(params, sk), NewEncryptor(params, sk).ShallowCopy(), NewEncryptor(params, nil).WithKey(sk)} {
+		tag := []string{"NewEncryptor", "ShallowCopy", "WithKey"}[ei]
+		vAssertSameField(refE, enc.xeSampler, "xe", tag+"-error-sampler-draws-from-the-declared-Xe")
+		vAssertSameField(refS, enc.xsSampler, "hw", tag+"-secret-sampler-draws-from-the-declared-Xs")
+	}
+	kgen := NewKeyGenerator(params)
+	vAssertSameField(refE, kgen.xeSampler, "xe", "KeyGenerator-error-sampler-draws-from-the-declared-Xe")
 }
 
 func VerifH_C03_EncryptDecrypt() {
@@ -46,6 +149,7 @@ func VerifH_C03_EncryptDecrypt() {
 			tag := "set" + string(rune('0'+i)) + "-L" + string(rune('0'+level))
 			vEncDec(c, c.EncSk, level, tag+"-sk")
 			vEncDec(c, c.EncPk, level, tag+"-pk")
+			vEncZeroDegree0(c, level, tag)
 		}
 	}
 	vCover("C03-reached")
